@@ -10,12 +10,12 @@ if not os.path.isdir(W): sh(f"git -C /repo worktree add --detach {W} {B}")
 sh(f"git checkout -q -- . && git checkout -q --detach {B}", cwd=W)
 B = subprocess.run("git -C /repo rev-parse HEAD", shell=True, capture_output=True, text=True).stdout.strip()
 sh(f"git checkout -q -- . && git checkout -q --detach {B}", cwd=W)
-props = sys.argv[1:] or sorted({os.path.basename(os.path.dirname(os.path.dirname(os.path.dirname(p)))) for p in glob.glob("/tmp/wt/C*/_out/benign/b1") + glob.glob("/tmp/wt2/C*/_out/benign2/b1")})
+props = sys.argv[1:] or sorted({os.path.basename(os.path.dirname(os.path.dirname(os.path.dirname(p)))) for p in glob.glob("/tmp/wt/C*/_out/benign/b1") + glob.glob("/tmp/wt2/C*/_out/benign2/b1") + glob.glob("/tmp/wt2/C*/_out/benign3/b1")})
 res = {}
 for c in props:
-    for m in sorted(glob.glob(f"/tmp/wt/{c}/_out/benign/b*")) + sorted(glob.glob(f"/tmp/wt2/{c}/_out/benign2/b*")):
+    for m in sorted(glob.glob(f"/tmp/wt/{c}/_out/benign/b*")) + sorted(glob.glob(f"/tmp/wt2/{c}/_out/benign2/b*")) + sorted(glob.glob(f"/tmp/wt2/{c}/_out/benign3/b*")):
         if not os.path.exists(m + "/patch.diff"): continue
-        name = f"{c}-{'r2' if 'benign2' in m else 'r1'}-{os.path.basename(m)}"
+        name = f"{c}-{'r3' if 'benign3' in m else 'r2' if 'benign2' in m else 'r1'}-{os.path.basename(m)}"
         r = sh(f"git apply {m}/patch.diff", cwd=W)
         if r.returncode != 0:
             res[name] = {"applies": False}; print(name, "DOES NOT APPLY"); continue
